@@ -3540,6 +3540,7 @@ class _ControlReconnectionHandler(_ReconnectionHandler):
 
     def on_reconnection(self, connection):
         self.control_connection._set_new_connection(connection)
+        return True
 
     def on_exception(self, exc, next_delay):
         # TODO only overridden to add logging, so add logging
